@@ -30,6 +30,13 @@ func c17addr(i int) sdk.AccAddress {
 // stated bound on serial numbers: c17bytes bytes (3 quick, 9 in the *_wide harnesses)
 var c17bytes = 3
 
+// c17wide runs a harness with 9-byte serials (native replays share one process: reset afterwards)
+func c17wide(f func()) {
+	c17bytes = 9
+	defer func() { c17bytes = 3 }()
+	f()
+}
+
 func c17serial(label string) sdk.Int {
 	s := verif_Int(label)
 	lim := sdk.OneInt()
@@ -197,13 +204,13 @@ func c17listOnly(n int) {
 func Harness_C17_list_1() { c17listOnly(1) }
 func Harness_C17_list_2() { c17listOnly(2) }
 func Harness_C17_list_3() { c17listOnly(3) }
-func Harness_C17_list_1_wide() { c17bytes = 9; c17listOnly(1) }
-func Harness_C17_list_2_wide() { c17bytes = 9; c17listOnly(2) }
-func Harness_C17_create_1_wide() { c17bytes = 9; c17stepCreate(1) }
-func Harness_C17_revoke_1_wide() { c17bytes = 9; c17stepRevoke(1) }
-func Harness_C17_create_2_wide() { c17bytes = 9; c17stepCreate(2) }
-func Harness_C17_revoke_2_wide() { c17bytes = 9; c17stepRevoke(2) }
-func Harness_C17_list_3_wide()   { c17bytes = 9; c17listOnly(3) }
+func Harness_C17_list_1_wide() { c17wide(func() { c17listOnly(1) }) }
+func Harness_C17_list_2_wide() { c17wide(func() { c17listOnly(2) }) }
+func Harness_C17_create_1_wide() { c17wide(func() { c17stepCreate(1) }) }
+func Harness_C17_revoke_1_wide() { c17wide(func() { c17stepRevoke(1) }) }
+func Harness_C17_create_2_wide() { c17wide(func() { c17stepCreate(2) }) }
+func Harness_C17_revoke_2_wide() { c17wide(func() { c17stepRevoke(2) }) }
+func Harness_C17_list_3_wide() { c17wide(func() { c17listOnly(3) }) }
 
 func c17stepCreate(n int) {
 	ctx, k := c17env()
